@@ -238,25 +238,26 @@ func (group *Group) Dispose() {
 		group.customizePubSession.Dispose()
 	}
 
+	// 注意，集合清空而不是置为nil：关闭过程中仍可能有已经建立连接的session加入（写nil map会panic）
 	for session := range group.rtmpSubSessionSet {
 		session.Dispose()
 	}
-	group.rtmpSubSessionSet = nil
+	group.rtmpSubSessionSet = make(map[*rtmp.ServerSession]struct{})
 
 	for session := range group.rtspSubSessionSet {
 		session.Dispose()
 	}
-	group.rtspSubSessionSet = nil
+	group.rtspSubSessionSet = make(map[*rtsp.SubSession]struct{})
 
 	for session := range group.httpflvSubSessionSet {
 		session.Dispose()
 	}
-	group.httpflvSubSessionSet = nil
+	group.httpflvSubSessionSet = make(map[*httpflv.SubSession]struct{})
 
 	for session := range group.httptsSubSessionSet {
 		session.Dispose()
 	}
-	group.httptsSubSessionSet = nil
+	group.httptsSubSessionSet = make(map[*httpts.SubSession]struct{})
 
 	group.delIn()
 }
